@@ -41,10 +41,16 @@ type World struct {
 	YieldMax   time.Duration // maximal fake-time delay of one yield
 	SitePct    int           // percent of lock sites active in this run
 	yieldOff   bool
+	spin       map[uint64]*spinState
 	DisabledSites map[string]bool
 }
 
 var yieldLog = os.Getenv("OXSIM_YLOG") != ""
+
+type spinState struct {
+	at int64
+	n  int
+}
 
 type simGrpcServer struct{ port int }
 
@@ -60,7 +66,7 @@ func (p simGrpcProvider) StartGrpcServer(name, bindAddress string, registerFunc 
 
 func NewWorld(r *Run, cfg NetConfig) *World {
 	w := &World{R: r, Net: NewNet(r, cfg), Root: newScratchDir("world"), byTag: map[uint64]*Endpoint{}, Nodes: map[string]*SimNode{},
-		incs: map[string]int{}, yieldOrd: map[string]int64{}, siteCache: map[uintptr]string{}, DisabledSites: map[string]bool{}}
+		incs: map[string]int{}, spin: map[uint64]*spinState{}, yieldOrd: map[string]int64{}, siteCache: map[uintptr]string{}, DisabledSites: map[string]bool{}}
 	rpc.SimNewPool = func() func(target string) (rpc.SimConn, error) {
 		tag := runtime.SimTag()
 		w.mu.Lock()
@@ -112,14 +118,41 @@ func (w *World) endpointOfCaller() *Endpoint {
 // yield is the simsync hook: a hash-chosen fake-time sleep before a Lock/RLock of a
 // goroutine that belongs to a simulated process.
 func (w *World) yield(pc uintptr) {
-	if w.yieldOff || w.YieldPct == 0 {
+	if w.yieldOff {
 		return
 	}
+
 	ep := w.endpointOfCaller()
 	if ep == nil || ep.Dead() {
 		return
 	}
+	// every lock acquisition of the system under test is a cooperative scheduling point:
+	// workers run on one P without asynchronous preemption, so a busy-wait loop (e.g. the
+	// follower cursor spinning on a closed quorum tracker) must not starve the goroutine
+	// that would end it
+	runtime.Gosched()
 	w.yieldMu.Lock()
+	// a goroutine busy-waiting at one simulated instant would freeze the bubble's clock
+	// (time only advances when everything is durably blocked): after many visits within the
+	// same instant, let a little simulated time pass, as real time would during the spin
+	now := int64(w.R.Now())
+	sp := w.spin[runtime.SimPath()]
+	if sp == nil {
+		sp = &spinState{}
+		w.spin[runtime.SimPath()] = sp
+	}
+	if sp.at == now {
+		sp.n++
+	} else {
+		sp.at, sp.n = now, 0
+	}
+	if sp.n > 2000 {
+		sp.n = 0
+		w.yieldMu.Unlock()
+		w.R.Count("spin_breaker", 1)
+		time.Sleep(50 * time.Microsecond)
+		w.yieldMu.Lock()
+	}
 	site, ok := w.siteCache[pc]
 	if !ok {
 		f := runtime.FuncForPC(pc - 1)
@@ -130,7 +163,7 @@ func (w *World) yield(pc uintptr) {
 		site = fmt.Sprintf("%s:%d", filepath.Base(file), line)
 		w.siteCache[pc] = site
 	}
-	if w.DisabledSites[site] || int(H(w.R.Seed, "site", site)%100) >= w.SitePct {
+	if w.YieldPct == 0 || w.DisabledSites[site] || int(H(w.R.Seed, "site", site)%100) >= w.SitePct {
 		w.yieldMu.Unlock()
 		return
 	}
